@@ -49,6 +49,7 @@ typedef struct vreport {
 } vreport;
 
 extern vreport *vr; // never NULL (points at a static one by default)
+extern int      vr_abort_on_fail;
 void vr_tag(const char *tag);                 // classification tag (idempotent)
 void vr_tagf(const char *fmt, ...);
 void vr_count(int idx, long n);
